@@ -162,7 +162,10 @@ func (e *Engine) VerifyFunction(fn *ssa.Function) (res *FuncResult) {
 func (fr *Frame) checkReturn(r returnInfo, ct *FuncContract) {
 	fx := fr.fx
 	fn := fr.fn
-	env := fr.specEnv(r.st, nil, nil)
+	// locals of the function are visible in postconditions with the value they have at this return
+	env := fr.specEnv(r.st, r.blk, nil)
+	fr.atInside = true
+	defer func() { fr.atInside = false }()
 	env.old = fx.entry
 	oenv := fr.specEnv(fx.entry, nil, nil)
 	env.oldEnv = oenv
